@@ -799,9 +799,22 @@ class Models:
         return s.eng.load_raw(st, Ptr(args[0].obj, sm.vbase + STATE_OFF), 4)
 
     def set_state(s, st, p, sm, bits):
+        """basic_ios::setstate: ors the bits in; returns True when the stream's exception mask asks for ios_base::failure"""
         e = s.eng
         cur = e.load_raw(st, Ptr(p.obj, sm.vbase + STATE_OFF), 4)
-        e.store_raw(st, Ptr(p.obj, sm.vbase + STATE_OFF), 4, cur | bits if isinstance(cur, int) else e.A.binop(st, 'or', cur, bits, 32))
+        new = cur | bits if isinstance(cur, int) else e.A.binop(st, 'or', cur, bits, 32)
+        e.store_raw(st, Ptr(p.obj, sm.vbase + STATE_OFF), 4, new)
+        return s.mask_hit(st, Ptr(p.obj, sm.vbase), new)
+
+    def mask_hit(s, st, ios_base, state):
+        mask = s.eng.load_raw(st, Ptr(ios_base.obj, s.eng.A.off_add(st, ios_base.off, STATE_OFF - 4, 64, 1)), 4)     # ios_base::_M_exception
+        if isinstance(mask, int) and mask == 0:
+            return False
+        if isinstance(mask, int) and isinstance(state, int):
+            return (mask & state) != 0
+        raise Inconclusive('symbolic stream exception mask / state')
+
+    IOS_FAILURE = '@_ZTINSt8ios_base7failureB5cxx11E'
 
     def x__ZNSo5writeEPKcl(s, st, stack, work, args, ins):
         e = s.eng
@@ -835,8 +848,11 @@ class Models:
         if sm.failed:
             # sentry fails: nothing extracted, failbit set (again), destination untouched
             e.store_raw(st, gc, 8, 0)
-            s.set_state(st, this, sm, FAILBIT)
+            hit = s.set_state(st, this, sm, FAILBIT)
             sm.nreads += 1
+            if hit:
+                e.raise_exc(st, stack, s.IOS_FAILURE, from_call=ins)
+                return s.RAISED
             return this
         # injected failure: reads with index >= fail_at deliver nothing
         if sm.fail_at is not None:
@@ -846,9 +862,12 @@ class Models:
             if dec:
                 sm.failed = True
                 e.store_raw(st, gc, 8, 0)
-                s.set_state(st, this, sm, FAILBIT | BADBIT)
+                hit = s.set_state(st, this, sm, FAILBIT | BADBIT)
                 st.events.append(('injected-failure', sm.nreads))
                 sm.nreads += 1
+                if hit:
+                    e.raise_exc(st, stack, s.IOS_FAILURE, from_call=ins)
+                    return s.RAISED
                 return this
         ln = sm.len
         pos = sm.pos
@@ -882,7 +901,9 @@ class Models:
         else:
             e.store_raw(st, gc, 8, A.binop(st, 'sub', ln, pos, 64))
         sm.pos = ln
-        s.set_state(st, this, sm, FAILBIT | EOFBIT)
+        if s.set_state(st, this, sm, FAILBIT | EOFBIT):
+            e.raise_exc(st, stack, s.IOS_FAILURE, from_call=ins)
+            return s.RAISED
         return this
 
     def decide(s, st, stack, work, c):
@@ -937,6 +958,10 @@ class Models:
     def x__ZNSt9basic_iosIcSt11char_traitsIcEE5clearESt12_Ios_Iostate(s, st, stack, work, args, ins):
         this = args[0]
         s.eng.store_raw(st, Ptr(this.obj, s.eng.A.off_add(st, this.off, STATE_OFF, 64, 1)), 4, args[1])
+        # clear() throws ios_base::failure when the new state intersects the exception mask (this is how exceptions(mask) itself can throw)
+        if s.mask_hit(st, this, args[1]):
+            s.eng.raise_exc(st, stack, s.IOS_FAILURE, from_call=ins)
+            return s.RAISED
         return None
 
     def x__ZNSt8ios_base4InitC1Ev(s, st, stack, work, args, ins): return None
